@@ -477,6 +477,50 @@ def r6(ctx, fs):
             ctx.finding(rid, f.id, 'cases', 'ratio::%s: new_eq analyses the cases %s but equates analyses %s: a candidate could be offered whose equality means something else' % (cls, a[0], b[0]), loc=f.loc)
         if a[1] != 'TRUE_lit' or b[1] != 'true':
             ctx.finding(rid, f.id, 'identity', 'ratio::%s: an item equals itself (new_eq -> TRUE_lit, equates -> true); found %s / %s' % (cls, a[1], b[1]), loc=f.loc)
+    item_eq_tables(ctx, rid, fs)
+
+
+def item_eq_tables(ctx, rid, fs):
+    """new_eq of the item classes, decided on the paths: TRUE_lit only for the item itself (for string constants: equal texts), FALSE_lit only for an operand of
+    another kind (string constants: different texts); an operand of the same kind gets the equality built by the sat core / the theory, under no further test
+    than the tp routing of arith items (shared by C17.R6 and C13.R5)."""
+    for cls, ok_extra in (('bool_item', ()), ('arith_item', ('tp',)), ('var_item', ())):
+        f = fs.fn('ratio::%s::new_eq' % cls)
+        env = LocalEnv(f)
+        env.param_roles(['i'])
+        n = 0
+        for p in enum_paths(f.body):
+            if p.end != 'return':
+                continue
+            ident = dyn = None
+            extra = []
+            for c in p.conds:
+                if c[0] != 'if':
+                    extra.append(('switch',))
+                    continue
+                t = canon(c[1], env, subst=False)
+                if t in (('==', 'i', 'this'), ('==', 'this', 'i')):
+                    ident = c[2]
+                elif isinstance(t, tuple) and t[0] == 'dyncast':
+                    dyn = c[2]
+                elif 'TP_KEYWORD' in show(t) or "'tp'" in show(t):
+                    if 'tp' not in ok_extra:
+                        extra.append(t)
+                else:
+                    extra.append(t)
+            r = show(canon(p.endnode['c'][0], env, subst=False))
+            n += 1
+            if r == 'TRUE_lit':
+                good = ident is True and not extra
+            elif r == 'FALSE_lit':
+                good = dyn is False and not extra
+            else:
+                good = ident is False and not extra and ('new_eq' in r or 'allows' in r)
+            ctx.instance(rid, [f.id, 'path#%d' % n], {'function': f.id, 'identity': ident, 'same_kind': dyn, 'returns': r[:120], 'ok': good})
+            if not good:
+                ctx.finding(rid, f.id, 'path:%s' % r[:60], 'ratio::%s::new_eq returns %s under the conditions identity=%s, operand of the same kind=%s%s: the equality of two different items is what the sat core / '
+                            'the theory builds from their literals; TRUE_lit is only right for the item itself' % (cls, r[:100], ident, dyn, (', ' + ', '.join(show(x)[:80] for x in extra if isinstance(x, tuple))) if extra else ''),
+                            node=p.endnode)
 
 
 def run(ctx):
